@@ -18,6 +18,7 @@ import EmdProofs.AppendSpec
 import EmdProofs.Zipper
 import EmdProofs.ParsePath
 import EmdProps.C08
+import EmdProps.C01
 
 set_option linter.unusedSimpArgs false
 set_option linter.unusedVariables false
@@ -950,6 +951,215 @@ theorem C09_emdpath_self (over : Bool) (opt : TreeOpt) (f : Obj) (F Rt S D : Tre
     Bool.and_false, Bool.and_true, beq_self_eq_true, if_true, overThenAppend, Bool.or_self, Bool.or_true, Bool.true_or,
     Bool.or_false, Bool.false_or, reduceCtorEq, decide_false, decide_true] <;> rfl
 
+/-- C09, the ROOT saved with an emdpath (`save(path, root, mode, tree, emdpath='root/a/b')`, the runtime tree and the
+    file tree both having a node at a/b): the dispatch walks the runtime tree down to a/b and the result is exactly the
+    append of THAT node without emdpath, for every tree option and both modes — three more pairs of leaves of the emdpath
+    branch by equivalence with the proved ones -/
+theorem C09_emdpath_from_root (over : Bool) (opt : TreeOpt) (f : Obj) (F Rt S D : Tree) (body' : List (String × Obj))
+    (n0 : String) (p0 : List String)
+    (hF : F.rootedWF CT DT = true) (hR : Rt.rootedWF CT DT = true) (hname : Rt.name = F.name)
+    (hf : alookup F.name f.kids = some (encode F)) (hroot : (rootGroups f).contains F.name = true)
+    (hmdname : "metadatabundle" ∉ names F.kids)
+    (hmd : mdBody over F.info.body (mdEntries Rt.info) = .ok body')
+    (hS : F.at (n0 :: p0) = some S) (hD : Rt.at (n0 :: p0) = some D) :
+    appendInto DT f Rt [] over opt (some (joinPath (F.name :: n0 :: p0)))
+      = appendInto DT f Rt (n0 :: p0) over opt none := by
+  simp only [Tree.rootedWF, Bool.and_eq_true, beq_iff_eq] at hF hR
+  obtain ⟨hF1w, hrm⟩ := rootMd_encode over F Rt.info body' hF.1.1 hmdname hmd
+  have hS1 : (withBody F body').at (n0 :: p0) = some S := by rw [withBody_at]; exact hS
+  have hval0 := validate_inside (ct := CT) (dt := DT) (n0 :: p0) F S hF.1.1 hS
+  have hval := validate_inside (ct := CT) (dt := DT) (n0 :: p0) (withBody F body') S hF1w hS1
+  have hparse := parse_path F.name (n0 :: p0) (by
+    intro n hn
+    cases hn with
+    | head => exact infoWF_validName (Tree.wf_info hF.1.1)
+    | tail _ hn' => exact path_names_valid (n0 :: p0) F S hF.1.1 hS n hn')
+  have hRt : Rt.at [] = some Rt := by cases Rt; rfl
+  have e1 : (TreeOpt.below == TreeOpt.yes) = false := by decide
+  have e2 : (TreeOpt.below == TreeOpt.no) = false := by decide
+  have e3 : (TreeOpt.below == TreeOpt.below) = true := by decide
+  cases opt <;>
+  simp only [e1, e2, e3, appendInto, appendCore, hname, hroot, hD, hRt, hf, hrm, hparse, hval0, hval, List.isEmpty_cons,
+    List.isEmpty_nil, bind, Except.bind, pure,
+    Except.pure, Bool.not_true, Bool.false_and, Bool.false_eq_true, if_false, Option.isNone_some, Option.isNone_none,
+    Bool.and_false, Bool.and_true, beq_self_eq_true, if_true, overThenAppend, Bool.or_self, Bool.or_true, Bool.true_or,
+    Bool.or_false, Bool.false_or, reduceCtorEq, decide_false, decide_true] <;> rfl
+
+theorem withBody_at_kids (F : Tree) (body' : List (String × Obj)) (q : List String) (P : Tree) (h : F.at q = some P) :
+    ∃ P1, (withBody F body').at q = some P1 ∧ P1.kids = P.kids := by
+  cases q with
+  | nil =>
+    cases F with
+    | mk i k =>
+      simp only [Tree.at, Option.some.injEq] at h; subst h
+      exact ⟨_, rfl, rfl⟩
+  | cons n p => exact ⟨P, by rw [withBody_at]; exact h, rfl⟩
+
+/-- C09, an emdpath that names the PARENT of the node being appended (`emdpath='root/a'` for the runtime node a/b, a/b
+    being in the file): the dispatch finds the node's name among the target's children and appends in place — exactly
+    the append without emdpath, for every tree option and both modes -/
+theorem C09_emdpath_parent (over : Bool) (opt : TreeOpt) (f : Obj) (F Rt P S D : Tree) (body' : List (String × Obj))
+    (q : List String) (b : String)
+    (hF : F.rootedWF CT DT = true) (hR : Rt.rootedWF CT DT = true) (hname : Rt.name = F.name)
+    (hf : alookup F.name f.kids = some (encode F)) (hroot : (rootGroups f).contains F.name = true)
+    (hmdname : "metadatabundle" ∉ names F.kids)
+    (hmd : mdBody over F.info.body (mdEntries Rt.info) = .ok body')
+    (hP : F.at q = some P) (hS : findKid b P.kids = some S) (hD : Rt.at (q ++ [b]) = some D) :
+    appendInto DT f Rt (q ++ [b]) over opt (some (joinPath (F.name :: q)))
+      = appendInto DT f Rt (q ++ [b]) over opt none := by
+  simp only [Tree.rootedWF, Bool.and_eq_true, beq_iff_eq] at hF hR
+  obtain ⟨hF1w, hrm⟩ := rootMd_encode over F Rt.info body' hF.1.1 hmdname hmd
+  have hSat : F.at (q ++ [b]) = some S := tree_at_append q F P b S hP hS
+  obtain ⟨P1, hP1, hP1k⟩ := withBody_at_kids F body' q P hP
+  have hS1 : (withBody F body').at (q ++ [b]) = some S := tree_at_append q _ P1 b S hP1 (by rw [hP1k]; exact hS)
+  have hval0 := validate_inside (ct := CT) (dt := DT) q F P hF.1.1 hP
+  have hval := validate_inside (ct := CT) (dt := DT) (q ++ [b]) (withBody F body') S hF1w hS1
+  have hparse := parse_path F.name q (by
+    intro n hn
+    cases hn with
+    | head => exact infoWF_validName (Tree.wf_info hF.1.1)
+    | tail _ hn' => exact path_names_valid q F P hF.1.1 hP n hn')
+  have hne : (q ++ [b] == q) = false := by
+    apply beq_false_of_ne
+    intro e
+    have := congrArg List.length e
+    simp at this
+  have hempty : (q ++ [b]).isEmpty = false := by cases q <;> rfl
+  have hlast : (q ++ [b]).getLast? = some b := by simp
+  have hat := C01_node_at q (withBody F body') P1 hF1w hP1
+  have hkeys : (akeys (encode P1).kids).contains b = true := by
+    cases P1 with
+    | mk i k =>
+      simp only [Tree.kids_mk] at hP1k
+      simp only [encode, Obj.kids, akeys_append, akeys_encodeKids, List.contains_eq_mem, List.mem_append, decide_eq_true_eq]
+      right
+      rw [hP1k]
+      exact Classical.byContradiction (fun hc => by
+        rw [← findKid_none_iff] at hc
+        rw [hc] at hS; cases hS)
+  have e1 : (TreeOpt.below == TreeOpt.yes) = false := by decide
+  have e2 : (TreeOpt.below == TreeOpt.no) = false := by decide
+  have e3 : (TreeOpt.below == TreeOpt.below) = true := by decide
+  cases opt <;>
+  simp only [e1, e2, e3, appendInto, appendCore, hname, hroot, hD, hf, hrm, hparse, hval0, hval, hempty, hne, hlast, hat, hkeys,
+    bind, Except.bind, pure,
+    Except.pure, Bool.not_true, Bool.false_and, Bool.false_eq_true, if_false, Option.isNone_some, Option.isNone_none,
+    Bool.and_false, Bool.and_true, beq_self_eq_true, if_true, overThenAppend, Bool.or_self, Bool.or_true, Bool.true_or,
+    Bool.or_false, Bool.false_or, reduceCtorEq, decide_false, decide_true] <;> rfl
+
+theorem tree_at_app : ∀ (p q : List String) (t s : Tree), t.at p = some s → t.at (p ++ q) = s.at q
+  | [], q, t, s, h => by
+    simp only [Tree.at, Option.some.injEq] at h; subst h; rfl
+  | m :: p, q, t, s, h => by
+    simp only [Tree.at] at h
+    simp only [List.cons_append, Tree.at]
+    cases hk : findKid m t.kids with
+    | none => simp [hk] at h
+    | some k => simp only [hk] at h ⊢; exact tree_at_app p q k s h
+
+theorem isPrefixOf'_append : ∀ (p q : List String), isPrefixOf' p (p ++ q) = some q
+  | [], q => by cases q <;> rfl
+  | a :: p, q => by simp only [List.cons_append, isPrefixOf', if_true]; exact isPrefixOf'_append p q
+
+/-- C09, an emdpath that names a node DOWNSTREAM of the node being saved (`emdpath='root/a/b/c'` for the runtime node a,
+    both a and a/b/c being in the file, and no child of a/b/c being named like `a`): the dispatch walks the runtime
+    branch down to b/c and the result is exactly the append of THAT descendant without emdpath, for every tree option
+    and both modes -/
+theorem C09_emdpath_downstream (over : Bool) (opt : TreeOpt) (f : Obj) (F Rt S T D D' : Tree) (body' : List (String × Obj))
+    (n0 : String) (p0 : List String) (r0 : String) (rs : List String) (b : String)
+    (hF : F.rootedWF CT DT = true) (hR : Rt.rootedWF CT DT = true) (hname : Rt.name = F.name)
+    (hf : alookup F.name f.kids = some (encode F)) (hroot : (rootGroups f).contains F.name = true)
+    (hmdname : "metadatabundle" ∉ names F.kids)
+    (hmd : mdBody over F.info.body (mdEntries Rt.info) = .ok body')
+    (hS : F.at (n0 :: p0) = some S) (hT : F.at ((n0 :: p0) ++ (r0 :: rs)) = some T)
+    (hD : Rt.at (n0 :: p0) = some D) (hD' : D.at (r0 :: rs) = some D')
+    (hb : (n0 :: p0).getLast? = some b) (hnot : b ∉ akeys T.info.body ∧ b ∉ names T.kids) :
+    appendInto DT f Rt (n0 :: p0) over opt (some (joinPath (F.name :: ((n0 :: p0) ++ (r0 :: rs)))))
+      = appendInto DT f Rt ((n0 :: p0) ++ (r0 :: rs)) over opt none := by
+  simp only [Tree.rootedWF, Bool.and_eq_true, beq_iff_eq] at hF hR
+  obtain ⟨hF1w, hrm⟩ := rootMd_encode over F Rt.info body' hF.1.1 hmdname hmd
+  have hS1 : (withBody F body').at (n0 :: p0) = some S := by rw [withBody_at]; exact hS
+  have hT1 : (withBody F body').at ((n0 :: p0) ++ (r0 :: rs)) = some T := by
+    rw [List.cons_append, withBody_at]; exact hT
+  have hDT : Rt.at ((n0 :: p0) ++ (r0 :: rs)) = some D' := by rw [tree_at_app _ _ Rt D hD]; exact hD'
+  have hval0 := validate_inside (ct := CT) (dt := DT) _ F T hF.1.1 hT
+  have hvalS := validate_inside (ct := CT) (dt := DT) (n0 :: p0) (withBody F body') S hF1w hS1
+  have hvalT := validate_inside (ct := CT) (dt := DT) _ (withBody F body') T hF1w hT1
+  have hparse := parse_path F.name ((n0 :: p0) ++ (r0 :: rs)) (by
+    intro n hn
+    cases hn with
+    | head => exact infoWF_validName (Tree.wf_info hF.1.1)
+    | tail _ hn' => exact path_names_valid _ F T hF.1.1 hT n hn')
+  have hne : ((n0 :: p0) == ((n0 :: p0) ++ (r0 :: rs))) = false := by
+    apply beq_false_of_ne
+    intro e
+    have := congrArg List.length e
+    simp at this
+  have hat := C01_node_at _ (withBody F body') T hF1w hT1
+  have hkeys : (akeys (encode T).kids).contains b = false := by
+    cases T with
+    | mk i k =>
+      simp only [Tree.kids_mk, Tree.info_mk] at hnot
+      simp only [encode, Obj.kids, akeys_append, akeys_encodeKids, List.contains_eq_mem, List.mem_append, decide_eq_false_iff_not,
+        not_or]
+      exact hnot
+  have hpre := isPrefixOf'_append (n0 :: p0) (r0 :: rs)
+  have e1 : (TreeOpt.below == TreeOpt.yes) = false := by decide
+  have e2 : (TreeOpt.below == TreeOpt.no) = false := by decide
+  have e3 : (TreeOpt.below == TreeOpt.below) = true := by decide
+  simp only [List.cons_append] at *
+  cases opt <;>
+  simp only [e1, e2, e3, appendInto, appendCore, hname, hroot, hD, hD', hDT, hf, hrm, hparse, hval0, hvalS, hvalT, hne, hb, hat, hkeys, hpre,
+    List.isEmpty_cons, bind, Except.bind, pure,
+    Except.pure, Bool.not_true, Bool.false_and, Bool.false_eq_true, if_false, Option.isNone_some, Option.isNone_none,
+    Bool.and_false, Bool.and_true, beq_self_eq_true, if_true, overThenAppend, Bool.or_self, Bool.or_true, Bool.true_or,
+    Bool.or_false, Bool.false_or, reduceCtorEq, decide_false, decide_true] <;> rfl
+
+/-- C09, an emdpath that names the parent of a node the file does NOT hold yet (`emdpath='root/a'` for the runtime node
+    a/m, a being in the file and a/m not): with `tree=True` or `tree=False` the result is exactly the append without
+    emdpath (`C09_target_new_branch`, `C09_target_new_single`).  (`tree=None` differs on purpose: with the emdpath the
+    node's children are MERGED into the parent, without it they are written as new.) -/
+theorem C09_emdpath_parent_new (over : Bool) (opt : TreeOpt) (hopt : opt ≠ .below) (f : Obj) (F Rt P D : Tree)
+    (body' : List (String × Obj)) (q : List String) (m : String)
+    (hF : F.rootedWF CT DT = true) (hR : Rt.rootedWF CT DT = true) (hname : Rt.name = F.name)
+    (hf : alookup F.name f.kids = some (encode F)) (hroot : (rootGroups f).contains F.name = true)
+    (hmdname : "metadatabundle" ∉ names F.kids)
+    (hmd : mdBody over F.info.body (mdEntries Rt.info) = .ok body')
+    (hP : F.at q = some P) (hD : Rt.at (q ++ [m]) = some D)
+    (hnew : m ∉ names P.kids) (hbody : m ∉ akeys P.info.body)
+    (hbody' : q = [] → m ∉ akeys body') :
+    appendInto DT f Rt (q ++ [m]) over opt (some (joinPath (F.name :: q)))
+      = appendInto DT f Rt (q ++ [m]) over opt none := by
+  simp only [Tree.rootedWF, Bool.and_eq_true, beq_iff_eq] at hF hR
+  obtain ⟨hF1w, hrm⟩ := rootMd_encode over F Rt.info body' hF.1.1 hmdname hmd
+  have hP1 : ∃ P1, (withBody F body').at q = some P1 ∧ m ∉ names P1.kids ∧ m ∉ akeys P1.info.body := by
+    cases q with
+    | nil =>
+      cases F with
+      | mk i k =>
+        simp only [Tree.at, Option.some.injEq] at hP; subst hP
+        exact ⟨_, rfl, hnew, hbody' rfl⟩
+    | cons n p => exact ⟨P, by rw [withBody_at]; exact hP, hnew, hbody⟩
+  obtain ⟨P1, hP1, hnew1, hbody1⟩ := hP1
+  have hval0 := validate_inside (ct := CT) (dt := DT) q F P hF.1.1 hP
+  have hval := validate_beyond (ct := CT) (dt := DT) q (withBody F body') P1 m hF1w hP1 (alookup_encode_none P1 m hbody1 hnew1)
+  have hparse := parse_path F.name q (by
+    intro n hn
+    cases hn with
+    | head => exact infoWF_validName (Tree.wf_info hF.1.1)
+    | tail _ hn' => exact path_names_valid q F P hF.1.1 hP n hn')
+  have hempty : (q ++ [m]).isEmpty = false := by cases q <;> rfl
+  cases opt with
+  | below => exact absurd rfl hopt
+  | yes =>
+    simp only [appendInto, appendCore, hname, hroot, hD, hf, hrm, hparse, hval0, hval, hempty,
+      bind, Except.bind, pure, Except.pure, Bool.not_true, Bool.false_and, Bool.false_eq_true, if_false, Option.isNone_some,
+      Option.isNone_none, Bool.and_false, Bool.and_true, beq_self_eq_true, if_true]
+  | no =>
+    simp only [appendInto, appendCore, hname, hroot, hD, hf, hrm, hparse, hval0, hval, hempty,
+      bind, Except.bind, pure, Except.pure, Bool.not_true, Bool.false_and, Bool.false_eq_true, if_false, Option.isNone_some,
+      Option.isNone_none, Bool.and_false, Bool.and_true, beq_self_eq_true, if_true]
+
 /-- what "exactly there, and nothing else" means for all three targeted theorems: after replacing the subtree at `p`,
     the new subtree is what is read at `p` (and below), and the content of every node whose path does not pass through
     `p` is what it was -/
@@ -977,6 +1187,84 @@ theorem C09_foreign_branch (over : Bool) (f : Obj) (F X P D : Tree) (ep : String
   have hzip := atPath_encode (ct := CT) (dt := DT)
     (fun g => do let c ← writeNodeFull D; createIn g D.name c) q F P (P.addKid D) hF hP hwrite rfl
   simp only [bind, Except.bind] at hzip
+  simp only [appendInto, appendCore, hXnot, hD, hparse, hf, hval, List.isEmpty_cons, Option.isNone_some, bind, Except.bind,
+    pure, Except.pure, Bool.not_false, Bool.and_false, Bool.false_and, Bool.false_eq_true, if_false, hzip]
+
+/-- writing the branch BELOW a node into a group: the node's children, each whole, become new last children -/
+theorem writeTree_into (P D : Tree) (hDw : D.wf CT DT = true)
+    (hfresh : ∀ k ∈ D.kids, k.name ∉ akeys P.info.body ++ names P.kids) :
+    writeTree (encode P) D = .ok (encode (.mk P.info (P.kids ++ D.kids))) := by
+  have hDk : kidsWF CT DT (akeys P.info.body ++ names P.kids) D.kids = true :=
+    kidsWF_retake' D.kids _ _ (Tree.wf_kids hDw) hfresh
+  cases P with
+  | mk pi pk =>
+    simp only [Tree.info_mk, Tree.kids_mk] at hDk
+    simp only [writeTree, encode, Tree.info_mk, Tree.kids_mk]
+    rw [writeKids_ok (ct := CT) (dt := DT) D.kids (nodeAttrs pi) (pi.body ++ encodeKids pk) (akeys pi.body ++ names pk)
+      (fun n hn => by
+        have := alookup_isSome_mem_akeys n _ hn
+        rw [akeys_append, akeys_encodeKids] at this
+        exact this) hDk]
+    rw [encodeKids_append_list, List.append_assoc]
+
+/-- C09, FOREIGN ROOT under an emdpath (`save(path, other_root, mode, tree=True or None, emdpath='R/a/b')`, the other
+    root's name not being in the file): the root itself is NOT written — its children, each with its whole branch,
+    become new last children of the node the emdpath names; its metadata are dropped -/
+theorem C09_foreign_root (over : Bool) (opt : TreeOpt) (hopt : opt ≠ .no) (f : Obj) (F X P : Tree) (ep : String)
+    (q : List String)
+    (hF : F.wf CT DT = true) (hX : X.wf CT DT = true)
+    (hXnot : (rootGroups f).contains X.name = false)
+    (hparse : parseEmdpathWrite ep = some (F.name, q))
+    (hf : alookup F.name f.kids = some (encode F))
+    (hP : F.at q = some P)
+    (hfresh : ∀ k ∈ X.kids, k.name ∉ akeys P.info.body ++ names P.kids) :
+    appendInto DT f X [] over opt (some ep)
+      = .ok (f.setKids (areplace F.name (encode (F.replaceAt q (.mk P.info (P.kids ++ X.kids)))) f.kids)) := by
+  have hval := validate_inside (ct := CT) (dt := DT) q F P hF hP
+  have hwrite := writeTree_into P X hX hfresh
+  have hzip := atPath_encode (ct := CT) (dt := DT) (fun g => writeTree g X) q F P (.mk P.info (P.kids ++ X.kids)) hF hP hwrite rfl
+  have hXat : X.at [] = some X := by cases X; rfl
+  cases opt with
+  | no => exact absurd rfl hopt
+  | yes =>
+    simp only [appendInto, appendCore, hXnot, hXat, hparse, hf, hval, List.isEmpty_nil, Option.isNone_some, bind, Except.bind,
+      pure, Except.pure, Bool.not_false, Bool.and_false, Bool.false_and, Bool.true_and, Bool.false_eq_true, if_false, hzip,
+      show (TreeOpt.yes == TreeOpt.no) = false from by decide, if_true]
+  | below =>
+    simp only [appendInto, appendCore, hXnot, hXat, hparse, hf, hval, List.isEmpty_nil, Option.isNone_some, bind, Except.bind,
+      pure, Except.pure, Bool.not_false, Bool.and_false, Bool.false_and, Bool.true_and, Bool.false_eq_true, if_false, hzip,
+      show (TreeOpt.below == TreeOpt.no) = false from by decide, if_true]
+
+/-- …and a foreign Root with `tree=False` under an emdpath is refused (there is no node to write): nothing changes -/
+theorem C09_foreign_root_alone_refused (over : Bool) (f : Obj) (F X P : Tree) (ep : String) (q : List String)
+    (hF : F.wf CT DT = true)
+    (hXnot : (rootGroups f).contains X.name = false)
+    (hparse : parseEmdpathWrite ep = some (F.name, q))
+    (hf : alookup F.name f.kids = some (encode F))
+    (hP : F.at q = some P) :
+    appendInto DT f X [] over .no (some ep) = .error (.error "incompatible inputs") := by
+  have hval := validate_inside (ct := CT) (dt := DT) q F P hF hP
+  have hXat : X.at [] = some X := by cases X; rfl
+  simp only [appendInto, appendCore, hXnot, hXat, hparse, hf, hval, List.isEmpty_nil, Option.isNone_some, bind, Except.bind,
+    pure, Except.pure, Bool.not_false, Bool.and_false, Bool.false_and, Bool.true_and, Bool.false_eq_true, if_false,
+    show (TreeOpt.no == TreeOpt.no) = true from by decide, if_true, throw, throwThe, MonadExceptOf.throw]
+
+/-- C09, FOREIGN NODE under an emdpath with `tree=None`: the node is skipped and its children, each whole, become new
+    last children of the node the emdpath names -/
+theorem C09_foreign_below (over : Bool) (f : Obj) (F X P D : Tree) (ep : String) (q : List String)
+    (t0 : String) (ts : List String)
+    (hF : F.wf CT DT = true) (hX : X.wf CT DT = true)
+    (hXnot : (rootGroups f).contains X.name = false)
+    (hparse : parseEmdpathWrite ep = some (F.name, q))
+    (hf : alookup F.name f.kids = some (encode F))
+    (hP : F.at q = some P) (hD : X.at (t0 :: ts) = some D)
+    (hfresh : ∀ k ∈ D.kids, k.name ∉ akeys P.info.body ++ names P.kids) :
+    appendInto DT f X (t0 :: ts) over .below (some ep)
+      = .ok (f.setKids (areplace F.name (encode (F.replaceAt q (.mk P.info (P.kids ++ D.kids)))) f.kids)) := by
+  obtain ⟨hDw, _⟩ := wf_at (t0 :: ts) X D hX hD
+  have hval := validate_inside (ct := CT) (dt := DT) q F P hF hP
+  have hwrite := writeTree_into P D hDw hfresh
+  have hzip := atPath_encode (ct := CT) (dt := DT) (fun g => writeTree g D) q F P (.mk P.info (P.kids ++ D.kids)) hF hP hwrite rfl
   simp only [appendInto, appendCore, hXnot, hD, hparse, hf, hval, List.isEmpty_cons, Option.isNone_some, bind, Except.bind,
     pure, Except.pure, Bool.not_false, Bool.and_false, Bool.false_and, Bool.false_eq_true, if_false, hzip]
 
